@@ -23,7 +23,7 @@ PROPERTY = "C13"
 MODEL_TARGETS = ["Model/C13SyncBarrier.vo"]
 RULE = ("functions over 4 allocs + 2 arguments: memref.copy, linalg.generic, snax_alu / xDMA streaming regions reading and "
         "writing them, memref.dealloc, pre-existing cluster_sync_op, constants; straight-line and inside scf.for (depth <= 3) "
-        "and scf.if; an adversarial stream adds whole-buffer subviews (aliases), producers and consumers at different "
+        "and scf.if, chains producer / unrelated op of the consumer's core / consumer; an adversarial stream adds whole-buffer subviews (aliases), producers and consumers at different "
         "loop levels and barriers inside branches. Non-trivial = at least one cross-core shared value; distinct = "
         "distinct program texts")
 TRUSTED_BASE = [
@@ -68,13 +68,24 @@ class Gen:
 
     def item(self, depth):
         r = self.rng
-        kinds = ["copy", "copy", "copy", "generic", "generic", "generic", "sr_alu", "sr_dm", "sr_x64", "copy64", "const", "sync", "for", "for", "if"]
+        kinds = ["copy", "copy", "copy", "generic", "generic", "generic", "sr_alu", "sr_dm", "sr_x64", "copy64", "const", "sync", "for", "for", "if", "chain"]
         k = r.choice(kinds)
         if depth >= 3 and k in ("for", "if"):
             k = r.choice(["copy", "generic"])
         u = self.fresh()
         if k == "copy":
             return [mc_ir.t_copy(self.buf(False), self.buf(False))]
+        if k == "chain":
+            # producer on one core, an unrelated op of the consumer's core, then the consumer: the barrier the pass
+            # puts in front of the consumer sits between two ops of ONE core (a dispatcher that merges them into one
+            # guard would move the consumer in front of the barrier)
+            shared, other1, other2 = r.sample(self.bufs, 3)
+            if r.random() < 0.5:
+                return (mc_ir.t_generic([self.buf(False)], [shared], u).split("\n")
+                        + [mc_ir.t_copy(other1, other2), mc_ir.t_copy(shared, r.choice(["%a0", "%a1"]))])
+            return ([mc_ir.t_copy(r.choice(["%a0", "%a1"]), shared)]
+                    + mc_ir.t_generic([other1], [other2], u).split("\n")
+                    + mc_ir.t_generic([shared], [other2], self.fresh()).split("\n"))
         if k == "generic":
             return mc_ir.t_generic([self.buf()], [self.buf(False)], u).split("\n")
         if k == "sr_alu":
@@ -562,6 +573,17 @@ CORPUS = [
   "memref.copy"(%a0, %b0) : (memref<64xi32>, memref<64xi32>) -> ()
   """ + mc_ir.t_generic(["%b0"], ["%b1"], 1) + """
   "memref.dealloc"(%b0) : (memref<64xi32>) -> ()
+  "memref.copy"(%b1, %a1) : (memref<64xi32>, memref<64xi32>) -> ()
+  func.return
+}""",
+    # compute -> (unrelated DM copy) -> DM copy of the result: the inserted barrier lies between two DM ops; after
+    # dispatch-regions the second copy must still come after it
+    """func.func @f(%a0 : memref<64xi32>, %a1 : memref<64xi32>, %n : index, %cond : i1) {
+  %b1 = memref.alloc() : memref<64xi32>
+  %b2 = memref.alloc() : memref<64xi32>
+  %b3 = memref.alloc() : memref<64xi32>
+  """ + mc_ir.t_generic(["%a0"], ["%b1"], 1) + """
+  "memref.copy"(%b2, %b3) : (memref<64xi32>, memref<64xi32>) -> ()
   "memref.copy"(%b1, %a1) : (memref<64xi32>, memref<64xi32>) -> ()
   func.return
 }""",
